@@ -143,7 +143,7 @@ def _graph_case(draw, ctx):
     return {"kind": "graph", "spec": spec, "faults": faults}
 
 
-PRODUCERS = ["strip_blackboxes", "logic", "limit_fanin", "limit_fanout", "ternary", "unroll", "miter", "sensitization",
+PRODUCERS = ["copy_then_edit", "strip_blackboxes", "logic", "limit_fanin", "limit_fanout", "ternary", "unroll", "miter", "sensitization",
              "sensitivity", "acyclic_unroll", "acyclic_unroll_cyc", "insert_registers", "add_subcircuit",
              "fill_blackbox", "verilog_rt", "verilog_fast_rt", "bench_rt", "sequential_unroll", "supergates"]
 
@@ -153,7 +153,9 @@ def _producer_case(draw, ctx):
     p = draw(st.sampled_from(PRODUCERS))
     if p == "logic":
         return {"kind": "producer", "producer": p, "arg": draw(st.integers(1, 12))}
-    if p == "strip_blackboxes":
+    if p == "copy_then_edit":
+        spec = draw(S.circuit_spec(min_inputs=1, max_inputs=3, min_gates=1, max_gates=6, max_fanin=3, max_insts=2))
+    elif p == "strip_blackboxes":
         pools = (S.BENIGN,) if draw(st.booleans()) else (S.BENIGN[:8], ["u0_q", "u0_d", "u1_q", "u0_clk", "u0_Y", "u0_A", "u1_d"])
         spec = draw(S.circuit_spec(min_inputs=1, max_inputs=3, min_gates=1, max_gates=7, max_fanin=3, max_insts=2, pools=pools))
     elif p == "acyclic_unroll_cyc":
@@ -290,7 +292,32 @@ def _check_producer(case, ctx):
     names = sorted(c.graph.nodes)
     pick = names[case["pick"] % len(names)]
     res = None
-    if p == "strip_blackboxes":
+    if p == "copy_then_edit":
+        plains = [n for n in names if "." not in n]
+        plain = plains[case["pick"] % len(plains)]
+        # a copy-producing call, then a legal fully connected edit of one circuit: both must stay lint-clean
+        maker = [lambda: cg.tx.relabel(c, {}), lambda: c.copy(), lambda: cg.tx.strip_outputs(c), lambda: cg.tx.limit_fanout(c, 3),
+                 lambda: cg.tx.relabel(c, {plain: plain + "_r"})][case["pick"] % 5]
+        r = need(lib(maker), "producer|copy_then_edit|make", p)
+        tgt, other = (r, c) if case["k"] % 2 else (c, r)
+        src = sorted(n for n in tgt.graph.nodes if tgt.graph.nodes[n].get("type") in ("input", "and", "or", "xor", "not", "buf", "nand", "nor", "xnor"))
+        if not src:
+            return {"nontrivial": False, "labels": ["producer_skipped"]}
+        tgt.add("zz_obs", "buf", output=True)
+        need(lib(tgt.add_blackbox, cg.generic_flop, "zz_ff", {"clk": src[0], "d": src[-1], "q": "zz_obs"}), "producer|copy_then_edit|add_blackbox", p)
+        if tgt.blackboxes and len(tgt.blackboxes) > 1 and case["n"] % 2:
+            victim = sorted(k_ for k_ in tgt.blackboxes if k_ != "zz_ff")[0]
+            bbv = tgt.blackboxes[victim]
+            if not (set(bbv.inputs()) & set(bbv.outputs())):
+                fill = cg.Circuit(name="fill")
+                for i_ in sorted(bbv.inputs()):
+                    fill.add(i_, "input")
+                for o_ in sorted(bbv.outputs()):
+                    fill.add(o_, "or" if bbv.inputs() else "1", fanin=sorted(bbv.inputs()) if bbv.inputs() else None, output=True)
+                need(lib(tgt.fill_blackbox, victim, fill), "producer|copy_then_edit|fill", p)
+        _lint_both(other, "untouched circuit after the other one was edited")
+        res = tgt
+    elif p == "strip_blackboxes":
         out = lib(cg.tx.strip_blackboxes, c)
         if not out.ok and out.type == "ValueError":
             # documented refusal when a pin name would collide with an existing net
